@@ -9,7 +9,7 @@ CONSTANTS
   MaxOpens = 1
   Ids = {1}
   Hosts = {"h0"}
-  MaxWrites = 1
+  MaxWrites = 2
   Lens = {1}
   ReadMax = {4}
   Closers = {}
@@ -23,7 +23,7 @@ CONSTANTS
   MaxAdv = 0
   Bridgers = {}
   MaxHandles = 1
-  MaxCtr = 4
+  MaxCtr = 7
 VIEW View
 CONSTRAINT Bound
 INVARIANTS NoViolation TypeOK AckSound QueueBound InitialCredit ExactlyOne TargetCarried BoundedRetry Released DoneResolved
